@@ -165,6 +165,17 @@ def extra_cfgs(tier):
         return {'a': a, 'c': c}, {'t': t, 'u': u}
     add('shared modules: 1-bit Add with carry-in wire shared with an operand first', alias_add3, 'comb')
 
+    def alias_nary(s):
+        a, b_ = W(s, 'a', 3), W(s, 'b', 3)
+        o = [W(s, 'o%d' % k, 3) for k in range(5)]
+        Xor(s, 'x3', [a, b_, a], o[0])
+        And(s, 'a3', [a, b_, a], o[1])
+        Or(s, 'o3', [b_, a, b_, a], o[2])
+        Nor(s, 'n3', [a, a, b_], o[3])
+        Xor(s, 'x4', [a, a, b_, b_], o[4])
+        return {'a': a, 'b': b_}, {'o%d' % k: o[k] for k in range(5)}
+    add('n-ary gates with one wire on several of their inputs', alias_nary, 'comb')
+
     def alias_cmp(s):
         a, b_ = W(s, 'a', 4), W(s, 'b', 4)
         o = [W(s, 'o%d' % k, 1) for k in range(6)]
